@@ -23,6 +23,7 @@ pub struct ImageWriter<'a, T: Read + Write + Seek> {
     writer: &'a mut PagedWriter<T>,
     images: &'a mut Vec<Image>,
     image: Image,
+    finalized: bool,
 }
 
 impl<'a, T: Read + Write + Seek> ImageWriter<'a, T> {
@@ -47,6 +48,7 @@ impl<'a, T: Read + Write + Seek> ImageWriter<'a, T> {
                 sensor_model: None,
                 sensor_serial: None,
             },
+            finalized: false,
         })
     }
 
@@ -113,6 +115,7 @@ impl<'a, T: Read + Write + Seek> ImageWriter<'a, T> {
         properties: VisualReferenceImageProperties,
         mask: Option<&mut dyn Read>,
     ) -> Result<()> {
+        self.check_not_finalized()?;
         let data = Blob::write(self.writer, image)?;
         let blob = ImageBlob { data, format };
         let mask = if let Some(mask_data) = mask {
@@ -143,6 +146,7 @@ impl<'a, T: Read + Write + Seek> ImageWriter<'a, T> {
         properties: PinholeImageProperties,
         mask: Option<&mut dyn Read>,
     ) -> Result<()> {
+        self.check_not_finalized()?;
         if self.image.projection.is_some() {
             Error::invalid("A projected image is already set")?
         }
@@ -176,6 +180,7 @@ impl<'a, T: Read + Write + Seek> ImageWriter<'a, T> {
         properties: SphericalImageProperties,
         mask: Option<&mut dyn Read>,
     ) -> Result<()> {
+        self.check_not_finalized()?;
         if self.image.projection.is_some() {
             Error::invalid("A projected image is already set")?
         }
@@ -209,6 +214,7 @@ impl<'a, T: Read + Write + Seek> ImageWriter<'a, T> {
         properties: CylindricalImageProperties,
         mask_data: Option<&mut dyn Read>,
     ) -> Result<()> {
+        self.check_not_finalized()?;
         if self.image.projection.is_some() {
             Error::invalid("A projected image is already set")?
         }
@@ -235,13 +241,23 @@ impl<'a, T: Read + Write + Seek> ImageWriter<'a, T> {
     /// that the data will be part of the E57 file but is never referenced by
     /// its XML header section.
     pub fn finalize(&mut self) -> Result<()> {
+        self.check_not_finalized()?;
         if self.image.visual_reference.is_none() && self.image.projection.is_none() {
             Error::invalid("Image must have a visual reference or a projection")?
         }
 
         // Add metadata for XML generation later, when the file is completed.
         self.images.push(self.image.clone());
+        self.finalized = true;
 
+        Ok(())
+    }
+
+    /// A finalized image cannot be changed anymore or added a second time.
+    fn check_not_finalized(&self) -> Result<()> {
+        if self.finalized {
+            Error::invalid("The image was already finalized")?
+        }
         Ok(())
     }
 }
